@@ -1,10 +1,10 @@
 """C09 - strand-aware view swaps upstream/downstream for minus-strand genes only."""
-import json
+import copy, json
 from .. import common, gen, pool, pipefam, readerfam
 
 RULE = ("result files produced by the real library stages from generated pairs with every strand mixture (all +, all -, with '.', mixed; "
-        "gene rows shuffled), loaded through every provided constructor (DensityData(...) with the cached GeneData and with a GeneData in a row order of its own, verify_h5_cache, the two "
-        "directory-level constructors) in a fresh directory each; every gene column (both TE levels, all groups and windows) compared with the raw arrays; "
+        "gene rows shuffled; every fourth pair on three chromosomes whose result-file names differ only by trailing characters of the extension, e.g. Chr1 / Chr15), loaded through every provided constructor (DensityData(...) with the cached GeneData and with a GeneData in a row order of its own, verify_h5_cache, the two "
+        "directory-level constructors) in a fresh directory each, and - every third pair - in a directory where the pipeline had first run on the same genes with other strands before the gene file was corrected and the command repeated; every gene column (both TE levels, all groups and windows) compared with the raw arrays; "
         "raw file hashed before/after; plus synthetic result files in the code's layout with up to 10^7 values per array (2 files quick, 6 thorough), a few per cent minus genes, one of them among the last genes; non-trivial = at least one minus and one non-minus gene; distinct = (case, constructor)")
 HOWS = ["ctor", "ctor_shuffled", "verify", "dir", "regex"]
 
@@ -16,10 +16,22 @@ def run(chk):
     sessions = []
     for i in range(n):
         mix = readerfam.STRAND_MIXES[i % len(readerfam.STRAND_MIXES)]
-        c = readerfam.strand_case(r, mix)
+        # every fourth pair on chromosomes whose file names differ only by trailing characters of the file extension
+        fam = [["Chr1", "Chr15", "Chr5"], ["c.h", "c", "c5"], ["Sc5", "Sc", "Sc55"]][(i // 4) % 3] if i % 4 == 1 else None
+        c = readerfam.strand_case(r, mix, max_chrom=3, names=fam, min_chrom=3) if fam else readerfam.strand_case(r, mix)
         for how in HOWS:
             sessions.append((c, how))
-    reps = pool.run_requests([{"op": "reader.session", "case": c, "steps": [{"how": how}]} for c, how in sessions], timeout=240)
+        if i % 3 == 0:
+            # history: the pipeline first ran on the same genes with other strands; the strands were then corrected in the gene file and
+            # the command repeated in the same output directory (no refresh option: the caches follow the file's modification time)
+            before = copy.deepcopy(c)
+            for g in before["genes"]:
+                g["strand"] = {"+": "-", "-": "+", ".": "-"}[g["strand"]] if r.random() < 0.7 else g["strand"]
+            c2 = dict(c); c2["_before"] = before; c2["mix"] = c["mix"]
+            for how in ("dir", "ctor", "verify"):
+                sessions.append((c2, how))
+    reps = pool.run_requests([dict({"op": "reader.session", "case": {k: v for k, v in c.items() if k != "_before"}, "steps": [{"how": how}]},
+                                   **({"case_before": c["_before"]} if c.get("_before") else {})) for c, how in sessions], timeout=240)
     exprs, meta = [], []
     for si, ((c, how), rep) in enumerate(zip(sessions, reps)):
         if rep.get("ok"):
@@ -40,8 +52,10 @@ def run(chk):
     nv, ndiff, first = 0, 0, None
     for si, ((c, how), rep) in enumerate(zip(sessions, reps)):
         strands = set(g["strand"] for g in c["genes"])
-        chk.case_seen([c["genes"], c["tes"], how], "-" in strands and len(strands) > 1)
+        chk.case_seen([c["genes"], c["tes"], how, bool(c.get("_before"))], "-" in strands and len(strands) > 1)
         chk.count("mix:" + c["mix"]); chk.count("constructor:" + how)
+        if c.get("_before"):
+            chk.count("history:strands_corrected_then_rerun")
         fails = []
         if not rep.get("ok"):
             fails.append({"kind": "session_failed", "exc": rep.get("exc"), "msg": rep.get("msg")})
@@ -67,7 +81,8 @@ def run(chk):
             nv += 1
             if nv <= 2:
                 chk.violation("strand-aware reader does not exchange upstream/downstream exactly for the minus-strand genes (or modifies the raw file)",
-                              {"case": {k: c[k] for k in ("genes", "tes", "windows")}, "constructor": how, "failures": fails[:6]})
+                              dict({"case": {k: c[k] for k in ("genes", "tes", "windows")}, "constructor": how, "failures": fails[:6]},
+                                   **({"case_before": {k: c["_before"][k] for k in ("genes", "tes", "windows")}} if c.get("_before") else {})))
     chk.oblige("correspondence model = implementation (per gene column: raw / exchanged)", ndiff == 0, json.dumps(first)[:2000] if first else "")
     # size: result files far larger than any generated pair gives (the exchange must not depend on how much there is to exchange)
     shapes = [(6, 9, 8, 3000), (2, 60, 200, 700)] if chk.tier == "quick" else \
@@ -91,7 +106,8 @@ def replay(chk, rp):
         rep = pool.run_requests([rp["synthetic"]], timeout=900)[0]
         print(json.dumps(rep, indent=1))
         return 1 if (not rep.get("ok")) or rep.get("n_bad_genes") or not rep.get("raw_unchanged") else 0
-    rep = pool.run_requests([{"op": "reader.session", "case": rp["case"], "steps": [{"how": rp["constructor"]}]}])[0]
+    rep = pool.run_requests([dict({"op": "reader.session", "case": rp["case"], "steps": [{"how": rp["constructor"]}]},
+                                  **({"case_before": rp["case_before"]} if rp.get("case_before") else {}))])[0]
     fails = []
     if not rep.get("ok") or rep["steps"][0].get("error"):
         fails.append({"kind": "failed", "detail": rep.get("msg") or rep["steps"][0].get("error")})
